@@ -1792,16 +1792,7 @@ namespace avel {
         _mm_mask_storeu_epi8(ptr, mask, decay(v));
 
         #elif defined(AVEL_SSE2)
-        auto undef = _mm_undefined_si128();
-        auto full = _mm_cmpeq_epi8(undef, undef);
-
-        auto w = vec16x8u::width;
-        auto h = vec16x8u::width / 2;
-
-        auto lo = _mm_srl_epi64(full, _mm_cvtsi64_si128(8 * (h - std::min(h, n))));
-        auto hi = _mm_srl_epi64(full, _mm_cvtsi64_si128(8 * (w - std::min(w, n))));
-        auto mask = _mm_unpacklo_epi64(lo, hi);
-        _mm_maskmoveu_si128(decay(v), mask, reinterpret_cast<char *>(ptr));
+        store_first_bytes(ptr, decay(v), min(n, vec16x8i::width));
         #endif
 
         #if defined(AVEL_NEON)
